@@ -17,6 +17,8 @@ func main() {
 	switch os.Args[1] {
 	case "timerstress":
 		os.Exit(timerstressMain(os.Args[2:]))
+	case "wsstress":
+		os.Exit(wsstressMain(os.Args[2:]))
 	case "connstep":
 		os.Exit(connstepMain(os.Args[2:]))
 	default:
